@@ -101,6 +101,7 @@ type probe struct {
 	loopGid  atomic.Int64             // 0 until the reference goroutine is known
 	offLoop  [nKinds + 1]atomic.Int64 // per kind; last slot: any other entry (Started, setup ...)
 	inflight atomic.Int32
+	quiet    atomic.Bool // teardown: what runs is still checked but no longer counted
 	maxIn    atomic.Int32
 	exec     [nKinds]atomic.Int64
 	prod     [nKinds]atomic.Int64
@@ -129,7 +130,7 @@ func (p *probe) enter(kind int) func() {
 	}
 	return func() {
 		p.inflight.Add(-1)
-		if kind >= 0 {
+		if kind >= 0 && !p.quiet.Load() {
 			p.exec[kind].Add(1)
 		}
 	}
@@ -149,6 +150,7 @@ type crashMsg struct{}
 type hsvc struct {
 	*ns.NodeService
 	p          *probe
+	direct     bool // the event centre is in direct mode: the measurement publishes no local events
 	localName  string
 	globalName string
 }
@@ -168,6 +170,9 @@ func (h *hsvc) Receive(ctx actor.Context) {
 		func() {
 			defer h.p.enter(-1)()
 			ec := h.GetRunService().GetEventCenter()
+			if h.direct {
+				ec.SetLocalUseChan(false)
+			}
 			ec.Subscribe(h.localName, func(args ...interface{}) { defer h.p.enter(kLocalEvent)() })
 			ec.GSubscribe(h.globalName, func(args ...interface{}) { defer h.p.enter(kGlobalEvent)() })
 			// a listener that itself produces work for its own service
@@ -205,8 +210,10 @@ func (h *hsvc) fromInside() {
 	rs.GetTimerMgr().AddTimer(-1, func(args ...interface{}) { defer p.enter(kTimer)() })
 	p.prod[kPost].Add(1)
 	h.Post(func() { defer p.enter(kPost)() })
-	p.prod[kLocalEvent].Add(1)
-	rs.GetEventCenter().Publish(h.localName, 0)
+	if !h.direct {
+		p.prod[kLocalEvent].Add(1)
+		rs.GetEventCenter().Publish(h.localName, 0)
+	}
 }
 
 const (
@@ -307,7 +314,7 @@ func cfgn(cfg []int64, i int) int {
 //
 //	cfg = [peers, reqPerPeer, notifyPerPeer, responses, timeouts, timerProducers, perTimerProducer,
 //	       posters, perPoster, publishers, localPerPublisher, globalPerPublisher, conns, msgsPerConn,
-//	       mode, ovLocal, ovGlobal, ovPost, ovTimer, ovSessMsg, ovRequest, edgeRounds, siblings]
+//	       mode, ovLocal, ovGlobal, ovPost, ovTimer, ovSessMsg, ovRequest, edgeRounds, siblings, direct, teardown]
 //
 // mode 1: before anything else the service actor is crashed once (a message whose handler
 // panics) and restarted by its supervisor.  mode 2: the same props is spawned a second time;
@@ -320,6 +327,18 @@ func cfgn(cfg []int64, i int) int {
 // arrive at a mailbox while the dispatcher queue can be full and that mailbox may just be
 // ending a batch: there the UNCHANGED code re-schedules from the loop goroutine and can lock
 // itself up - a liveness matter, not this property.)
+//
+// direct: the service's event centre is in direct mode (SetLocalUseChan(false)): local Publish is
+// then a synchronous call made by the service itself, so no local events are produced; global
+// events - published by foreign goroutines and by other services - must still arrive through
+// the channel and run on the loop.
+//
+// teardown (1: the service stops its run service from inside a handler and keeps working for a
+// while, 2: a foreign goroutine stops it): comes last.  While connections close, send messages
+// and open on their network goroutines, timers are armed and expire, closures are posted, events
+// are published and requests arrive, the run service is stopped.  From then on work may be
+// dropped (the property says where a piece runs, not that it must run) - but whatever still
+// runs must run on the loop goroutine, one piece at a time.  Teardown work is not counted.
 //
 // edgeRounds: that many rounds of "boundary" work run concurrently with everything else: timers
 // with delay 0 / negative / 1ns / 1ms, one-shot and repeating, armed from a foreign goroutine;
@@ -345,6 +364,10 @@ func runStress(seed int64, cfg []int64) any {
 	ovTimer, ovSess, ovReq := cfgn(cfg, 18), cfgn(cfg, 19), cfgn(cfg, 20)
 	edgeRounds := cfgn(cfg, 21)
 	siblings := cfgn(cfg, 22)
+	direct, teardown := cfgn(cfg, 23) > 0, cfgn(cfg, 24)
+	if direct {
+		perLocal, ovLocal = 0, 0
+	}
 	if mode == 2 && siblings == 0 {
 		siblings = 1
 	}
@@ -362,7 +385,7 @@ func runStress(seed int64, cfg []int64) any {
 	var instMu sync.Mutex
 	incarnations := 0
 	sprops, _ := as.NewServicePropsWithNewScheDisp(func() actor.Actor {
-		h := &hsvc{NodeService: ns.NewService(), p: p, localName: tag + "-local", globalName: tag + "-global"}
+		h := &hsvc{NodeService: ns.NewService(), p: p, direct: direct, localName: tag + "-local", globalName: tag + "-global"}
 		h.NodeService.Service.InitReqReceiver(h)
 		instMu.Lock()
 		incarnations++
@@ -418,11 +441,18 @@ func runStress(seed int64, cfg []int64) any {
 		peerPIDs, peers = append(peerPIDs, pid), append(peers, ps)
 	}
 	rs := svc.GetRunService()
+	tornDown := false
 	stopAll := func() {
-		for _, pid := range append(append([]*actor.PID{echoPID, holePID}, svcTargets...), peerPIDs...) {
+		pids := append([]*actor.PID{echoPID, holePID}, peerPIDs...)
+		if !tornDown {
+			pids = append(pids, svcTargets...) // a stopped service cannot process its Stop message any more
+		}
+		for _, pid := range pids {
 			s.Root.StopFuture(pid).Wait()
 		}
-		rs.Stop()
+		if !tornDown {
+			rs.Stop()
+		}
 		echo.GetRunService().Stop()
 		hole.GetRunService().Stop()
 		for _, ps := range peers {
@@ -755,10 +785,12 @@ func runStress(seed int64, cfg []int64) any {
 			svc.fromInside()
 		})
 	})
-	producer(edgeRounds, func(r *rand.Rand, j int) {
-		p.prod[kLocalEvent].Add(1)
-		ec.Publish(svc.localName+"-nest", j)
-	})
+	if !direct {
+		producer(edgeRounds, func(r *rand.Rand, j int) {
+			p.prod[kLocalEvent].Add(1)
+			ec.Publish(svc.localName+"-nest", j)
+		})
+	}
 	producer(edgeRounds, func(r *rand.Rand, j int) {
 		p.prod[kRequest].Add(1)
 		echo.Post(func() { echo.Request(svcPID, &messages.TestHello{I: nestMark}, func(error, interface{}) {}) })
@@ -776,8 +808,15 @@ func runStress(seed int64, cfg []int64) any {
 			p.prod[kLocalEvent].Add(1)
 		})
 		producer(perGlobal, func(r *rand.Rand, j int) {
-			event.GetGlobalEC().Publish(svc.globalName, j)
 			p.prod[kGlobalEvent].Add(1)
+			switch {
+			case j%3 == 1 && len(peers) > 0: // published by another service, on its goroutine
+				peers[j%len(peers)].Post(func() { event.GetGlobalEC().Publish(svc.globalName, j) })
+			case j%3 == 2:
+				echo.Post(func() { event.GetGlobalEC().Publish(svc.globalName, j) })
+			default: // by a foreign goroutine
+				event.GetGlobalEC().Publish(svc.globalName, j)
+			}
 		})
 	}
 	for i := 0; i < nConn; i++ {
@@ -808,6 +847,110 @@ func runStress(seed int64, cfg []int64) any {
 	waitCaughtUp(deadline)
 	// a little grace: anything executed twice or late would show up as exec > prod
 	time.Sleep(5 * time.Millisecond)
+
+	if teardown > 0 && caughtUp() {
+		// three connections that exist when the service goes down
+		conns := []*fakeSession{{}, {}, {}}
+		for _, fs := range conns {
+			impl.OnSessionCreate(fs)
+			p.prod[kSessAdd].Add(1)
+		}
+		if !waitCaughtUp(deadline) {
+			return stressTerm(p.maxIn.Load() <= 1, p)
+		}
+		p.quiet.Store(true)
+		tornDown = true
+		stopped := make(chan struct{})
+		var twg sync.WaitGroup
+		// every producer works from before the stop until some time after it
+		during := func(f func(i int, afterStop bool)) {
+			twg.Add(1)
+			go func() {
+				defer twg.Done()
+				var end time.Time
+				for i := 0; ; i++ {
+					after := false
+					select {
+					case <-stopped:
+						after = true
+						if end.IsZero() {
+							end = time.Now().Add(25 * time.Millisecond)
+						}
+					default:
+					}
+					if after && time.Now().After(end) || i > 400 {
+						return
+					}
+					f(i, after)
+					time.Sleep(150 * time.Microsecond)
+				}
+			}()
+		}
+		for _, fs := range conns { // network goroutines: messages, then the connection drops
+			fs := fs
+			closed := false
+			during(func(i int, after bool) {
+				switch {
+				case closed:
+				case after && i%3 == 0:
+					impl.OnSessionClose(fs)
+					closed = true
+				default:
+					impl.ProcessMessage(fs, &message.Message{Type: message.Request, ID: uint(i + 1), Route: "x.y.z"})
+				}
+			})
+		}
+		during(func(i int, after bool) { // new connections keep arriving, some close at once
+			if i%8 == 0 {
+				fs := &fakeSession{}
+				impl.OnSessionCreate(fs)
+				if i%16 == 0 {
+					impl.OnSessionClose(fs)
+				}
+			}
+		})
+		during(func(i int, after bool) { svc.Post(func() { defer p.enter(kPost)() }) })
+		during(func(i int, after bool) {
+			tm.After(edgeDelays[i%len(edgeDelays)], func(args ...interface{}) { defer p.enter(kTimer)() })
+			if i%10 == 0 {
+				tm.After(8*time.Millisecond, func(args ...interface{}) { defer p.enter(kTimer)() })
+			}
+		})
+		during(func(i int, after bool) {
+			if !direct && i%4 == 0 { // at most 100: the queue is not drained any more
+				ec.Publish(svc.localName, i)
+			}
+			event.GetGlobalEC().Publish(svc.globalName, i)
+		})
+		during(func(i int, after bool) {
+			if i%20 == 0 {
+				echo.Post(func() { echo.Request(svcPID, &messages.TestHello{I: 8}, func(error, interface{}) {}) })
+			}
+		})
+		time.Sleep(5 * time.Millisecond)
+		if teardown == 1 {
+			// as actorex/service.Service.onStop does: stopped by the service itself, which then goes on
+			svc.Post(func() {
+				defer p.enter(kPost)()
+				rs.Stop()
+				close(stopped)
+				for t0 := time.Now(); time.Since(t0) < 15*time.Millisecond; {
+					runtime.Gosched()
+				}
+			})
+		} else {
+			rs.Stop()
+			close(stopped)
+		}
+		tdDone := make(chan struct{})
+		go func() { twg.Wait(); close(tdDone) }()
+		select {
+		case <-tdDone:
+		case <-time.After(5 * time.Second):
+			return stressTerm(false, p)
+		}
+		time.Sleep(20 * time.Millisecond) // late timers, the loop's last pieces
+	}
 	return stressTerm(p.maxIn.Load() <= 1, p)
 }
 
